@@ -127,8 +127,12 @@ func (e *Exec) runFunc(fn *ssa.Function, args []*smt.Term, bindings []*smt.Term,
 	e.runRegion(rg)
 	// merge returns
 	var sts []*State
+	e.lastRetPaths = nil
 	for _, r := range fr.rets {
 		sts = append(sts, r.st)
+		if !r.st.Dead() {
+			e.lastRetPaths = append(e.lastRetPaths, r.st.Path)
+		}
 	}
 	out := e.merge(sts)
 	var res *smt.Term
